@@ -19,31 +19,63 @@ def run(ctx):
 
 def overlap(ctx):
     """Whenever >= max_workers independent calls are ready that many do run in parallel: a width-w layer whose calls
-    rendezvous on a barrier completes only if w calls overlap; and a store-operation layer likewise."""
+    rendezvous on a barrier completes only if w calls overlap.  Shapes: w independent calls; one root feeding w children
+    (the pool must not be sized by the number of source nodes); w store writes of rebuilt values behind one source."""
     import threading
     uberjob = core.use_repo()
-    for w in (2, 3, 5):
-        for scheduler in (None, "random"):
-            bar = threading.Barrier(w, timeout=20)
-            infl, lock, mx = [0], threading.Lock(), [0]
+    import datetime as dt
 
-            def f(i):
-                with lock:
-                    infl[0] += 1
-                    mx[0] = max(mx[0], infl[0])
-                try:
-                    bar.wait()
-                finally:
+    class Mem(uberjob.ValueStore):
+        def __init__(self, bar=None):
+            self.v, self.t, self.bar = None, None, bar
+
+        def read(self):
+            return self.v
+
+        def write(self, v):
+            if self.bar is not None:
+                self.bar.wait()
+            self.v, self.t = v, dt.datetime(2020, 1, 1)
+
+        def get_modified_time(self):
+            return self.t
+
+    for shape in ("independent", "fan-out", "store-writes"):
+        for w in (2, 3, 5):
+            for scheduler in (None, "random"):
+                bar = threading.Barrier(w, timeout=4)
+                infl, lock, mx = [0], threading.Lock(), [0]
+
+                def f(i, *a):
                     with lock:
-                        infl[0] -= 1
-                return i
-            p = uberjob.Plan()
-            xs = [p.call(f, i) for i in range(w)]
-            ctx.case(("overlap", w, scheduler))
-            try:
-                uberjob.run(p, output=xs, max_workers=w, scheduler=scheduler, progress=None)
-            except BaseException as e:  # BrokenBarrierError -> the calls did not overlap
-                ctx.fail("overlap", "max_workers=%d ready calls did not run in parallel (%r)" % (w, e),
-                         {"width": w, "scheduler": scheduler})
-            if mx[0] > w:
-                ctx.fail("plan:too-many-in-flight", "%d in flight with max_workers=%d" % (mx[0], w), {"width": w})
+                        infl[0] += 1
+                        mx[0] = max(mx[0], infl[0])
+                    try:
+                        bar.wait()
+                    finally:
+                        with lock:
+                            infl[0] -= 1
+                    return i
+                p = uberjob.Plan()
+                reg = None
+                if shape == "independent":
+                    xs = [p.call(f, i) for i in range(w)]
+                elif shape == "fan-out":
+                    root = p.call(lambda: 0)
+                    xs = [p.call(f, i, root) for i in range(w)]
+                else:
+                    reg = uberjob.Registry()
+                    root = p.call(lambda: 0)
+                    xs = [p.call(lambda r, i=i: i, root) for i in range(w)]
+                    for x in xs:
+                        reg.add(x, Mem(bar))
+                ctx.case(("overlap", shape, w, scheduler))
+                ctx.count("overlap_shape", shape)
+                try:
+                    uberjob.run(p, output=xs, registry=reg, max_workers=w, scheduler=scheduler, progress=None)
+                except BaseException as e:  # BrokenBarrierError -> the calls did not overlap
+                    ctx.fail("overlap:" + shape, "max_workers=%d ready %s did not run in parallel (%s)" % (
+                        w, "store writes" if shape == "store-writes" else "calls", type(getattr(e, "__cause__", None) or e).__name__),
+                        {"shape": shape, "width": w, "scheduler": scheduler})
+                if mx[0] > w:
+                    ctx.fail("plan:too-many-in-flight", "%d in flight with max_workers=%d" % (mx[0], w), {"width": w})
